@@ -24,9 +24,11 @@ open A2l.Typed
 #print axioms loadFromIfdata_invalid
 #print axioms conforming_decodes
 #print axioms conforming_decodes_top
+#print axioms interpreted_no_repeat
 #print axioms store_load_content
 #print axioms store_load_content_top
-#print axioms store_drops_repeated_member
+#print axioms repeated_member_not_valid
+#print axioms old_store_dropped_repeated_member
 #print axioms stored_values_order
 #print axioms conforming_decodes_needs_flat
 #print axioms old_fixup_struct_inlined_struct_members
